@@ -47,6 +47,10 @@ type perIPConn struct {
 	ip     uint32
 	lock   sync.Mutex
 	closed bool
+	// abandoned is set when a handler timed out on this connection: the
+	// RequestCtx it keeps using still refers to the wrapper, which therefore
+	// must not be handed to another connection.
+	abandoned bool
 }
 
 type perIPTLSConn struct {
@@ -57,6 +61,10 @@ type perIPTLSConn struct {
 	ip     uint32
 	lock   sync.Mutex
 	closed bool
+	// abandoned is set when a handler timed out on this connection: the
+	// RequestCtx it keeps using still refers to the wrapper, which therefore
+	// must not be handed to another connection.
+	abandoned bool
 }
 
 func acquirePerIPConn(conn net.Conn, ip uint32, counter *perIPConnCounter) net.Conn {
@@ -73,6 +81,7 @@ func acquirePerIPConn(conn net.Conn, ip uint32, counter *perIPConnCounter) net.C
 		c.Conn = tlsConn
 		c.ip = ip
 		c.closed = false
+		c.abandoned = false
 		return c
 	}
 
@@ -88,6 +97,7 @@ func acquirePerIPConn(conn net.Conn, ip uint32, counter *perIPConnCounter) net.C
 	c.Conn = conn
 	c.ip = ip
 	c.closed = false
+	c.abandoned = false
 	return c
 }
 
@@ -132,9 +142,23 @@ func (c *perIPTLSConn) Close() error {
 func releasePerIPConn(c net.Conn) {
 	switch pc := c.(type) {
 	case *perIPConn:
-		pc.perIPConnCounter.perIPConnPool.Put(pc)
+		if !pc.abandoned {
+			pc.perIPConnCounter.perIPConnPool.Put(pc)
+		}
 	case *perIPTLSConn:
-		pc.perIPConnCounter.perIPTLSConnPool.Put(pc)
+		if !pc.abandoned {
+			pc.perIPConnCounter.perIPTLSConnPool.Put(pc)
+		}
+	}
+}
+
+// abandonPerIPConn keeps the wrapper of c out of its pool for good.
+func abandonPerIPConn(c net.Conn) {
+	switch pc := c.(type) {
+	case *perIPConn:
+		pc.abandoned = true
+	case *perIPTLSConn:
+		pc.abandoned = true
 	}
 }
 
